@@ -264,7 +264,8 @@ func c07Query(x *mc.Exec) {
 	if Thorough() {
 		max = 3
 	}
-	raw, params, _ := GenURL(x, max)
+	// thorough: a third parameter out of two instances per parameter name
+	raw, params, _ := GenURLOpt(x, max, 2, 2, false)
 	soft := len(x.Choices())%2 == 0 // alternate realisations without another dimension
 	if Thorough() {
 		soft = x.Choose(2, "schema") == 0
@@ -426,15 +427,50 @@ func c07JudgeEdited(raw string, u *j.URL, s *j.Schema) (string, string) {
 	return "", ""
 }
 
+// c07Retained: a URL returned by the parser stays what it was while other URLs are parsed (its
+// slices must not be backed by storage the parser reuses).
+func c07Retained(x *mc.Exec) {
+	soft := x.Bool("soft")
+	schema := urlSchema(soft)
+	raws := []string{"/a", "/a?sort=zz", "/b", "/cs", "/a?sort=-x", "/one", "/c/1/t", "/a?fields%5Ba%5D=x&include=r", "/none", "/a/1/rr?sort=x", "/self?include=me.me"}
+	n := 2 + x.Choose(2, "parses")
+	var urls []*j.URL
+	var snaps []string
+	desc := ""
+	for i := 0; i < n; i++ {
+		raw := raws[x.Choose(len(raws), "url")]
+		desc += raw + " ; "
+		u, err, pmsg, _ := ParseURL(x, schema, raw, false)
+		x.R.Add("transitions", 1)
+		if pmsg != "" || err != nil || u == nil {
+			return // C07/query's business
+		}
+		if rule, msg := c07Judge(raw, u); rule != "" {
+			x.Fail("C07:retained:"+rule, "%s (parse %d of [%s]): %s", raw, i+1, desc, msg)
+			return
+		}
+		urls, snaps = append(urls, u), append(snaps, mc.Snap(u))
+	}
+	x.Render(desc)
+	x.R.Mark("nontrivial", mc.Hash(desc, soft))
+	for i, u := range urls {
+		if now := mc.Snap(u); now != snaps[i] {
+			x.Fail("C07:retained:earlier-url-changed", "after [%s] the URL returned by parse %d is no longer what was returned:\n  then: %.400s\n  now:  %.400s", desc, i+1, snaps[i], now)
+			return
+		}
+	}
+}
+
 func init() {
 	Register(&Prop{
 		ID: "C07",
-		Rule: "Engine A: (a) every path of 0..6 fragments over per-position alphabets (types incl. one-attribute, field-less and self-referential ones, unknown word, percent-escape, malformed escape, id, 'relationships', 'meta', every relationship name) x 4 decorations x {soft, struct-backed} schema; (b) 16 representative paths x every ordered sequence with repetition of 0..2 (thorough 3) query parameters from a menu of ~100 instances (fields[] with valid/unknown/duplicate/id/empty lists for known, unknown and empty types; sort with repeats, '-', id, unknown names, empty items; include with names that are string prefixes of one another, unknown names, nested paths to depth 3, self-reference; page[]; filter labels, empty value, JSON trees, malformed JSON; unknown and malformed parameter names); the iteration order of the query-parameter map is a deviation-bounded choice (bound 1). (c) three parses interleaved with edits (RemoveAttr/AddAttr/AddRel/RemoveRel/rename) of the SAME schema object, each compared with a parse against a freshly built equal schema. Oracle: no panic, exactly one of (URL, error), and an independent reading of the request (net/url + the type table) for ResType, field selection, inclusion chains and sorting rules. Non-trivial = URL with >= 2 parameters / any path",
+		Rule: "Engine A: (a) every path of 0..6 fragments over per-position alphabets (types incl. one-attribute, field-less and self-referential ones, unknown word, percent-escape, malformed escape, id, 'relationships', 'meta', every relationship name) x 4 decorations x {soft, struct-backed} schema; (b) 19 representative paths x every ordered sequence with repetition of 0..2 query parameters from a menu of ~150 instances (thorough: plus a third one out of two instances per parameter name) (fields[] with valid/unknown/duplicate/id/empty lists for known, unknown and empty types; sort with repeats, '-', id, unknown names, empty items; include with names that are string prefixes of one another, unknown names, nested paths to depth 3, self-reference; page[]; filter labels, empty value, JSON trees, malformed JSON; unknown and malformed parameter names); the iteration order of the query-parameter map is a deviation-bounded choice (bound 1). (c) three parses interleaved with edits (RemoveAttr/AddAttr/AddRel/RemoveRel/rename) of the SAME schema object, each compared with a parse against a freshly built equal schema. (d) every sequence of 2..3 parses over 11 URLs with all returned URLs retained and compared with their deep snapshots at the end. Oracle: no panic, exactly one of (URL, error), and an independent reading of the request (net/url + the type table) for ResType, field selection, inclusion chains and sorting rules. Non-trivial = URL with >= 2 parameters / any path",
 		Assumptions: []string{"a valid requested inclusion path must be kept unless another REQUESTED path (valid or not) extends it by a dotted prefix (weaker reading)", "'kept unless a longer requested path extends it' is read as: an extended or repeated path is not returned a second time (the result is an antichain without duplicates)"},
 		Harnesses: []Harness{
 			{Name: "C07/query", Body: c07Query, Dev: func() int { return 1 }},
 			{Name: "C07/paths", Body: c07Paths, Dev: func() int { return 1 }},
 			{Name: "C07/after-edits", Body: c07AfterEdits},
+			{Name: "C07/retained", Body: c07Retained},
 		},
 	})
 }
